@@ -285,6 +285,12 @@ pub fn gen_case(idx: u64, large: bool) -> Case {
         cmdline.push(format!("DK={}", v));
         macros.push(MacroDef { name: "DK".into(), params: None, body: v.to_string(), arity: 0, is_value: true });
         desc.push("-D NAME=VALUE".into());
+        if rng.chance(1, 2) {
+            // a later -D whose value names an earlier one
+            cmdline.push("DK2=DK".into());
+            macros.push(MacroDef { name: "DK2".into(), params: None, body: "DK".into(), arity: 0, is_value: true });
+            desc.push("-D NAME=EARLIER_NAME".into());
+        }
     }
     if rng.chance(1, 4) {
         cmdline.push("DONE".into());
@@ -455,8 +461,18 @@ pub fn gen_case(idx: u64, large: bool) -> Case {
             _ => lines.push(format!("  g2 = {} ;", u)),
         }
     }
+    // a function whose name ENDS in the name of a function-like macro, called after the macro
+    // is defined: `xK3(2)` is one identifier, not `x` followed by a macro call
+    let suffix_fns: Vec<String> = live.iter().filter(|m| m.params.is_some() && m.arity == 1).map(|m| m.name.clone()).take(2).collect();
+    for n in &suffix_fns {
+        lines.push(format!("  g1 = x{}(2) + g1;", n));
+        desc.push("function name ending in a macro name".into());
+    }
     // names of undefined macros are ordinary identifiers again: declare and use one
     lines.push("}".into());
+    for n in &suffix_fns {
+        lines.insert(4, format!("char x{}(char v) {{ return v + 1; }}", n));
+    }
     for u in undefined.iter().take(2) {
         lines.insert(4, format!("unsigned char {}_after;", u));
     }
